@@ -190,6 +190,14 @@ nni_plat_cv_until(nni_plat_cv *cv, nni_time until)
 {
 	struct timespec ts;
 
+#ifdef NNG_VERIF
+	{
+		// verification hook H4: absolute times are in virtual time
+		extern nni_atomic_u64 nni_verif_clock_offset;
+		uint64_t              off = nni_atomic_get64(&nni_verif_clock_offset);
+		until                     = (until > off) ? until - off : 1;
+	}
+#endif
 	// Our caller has already guaranteed a sane value for until.
 	ts.tv_sec  = until / 1000;
 	ts.tv_nsec = (until % 1000) * 1000000;
